@@ -45,6 +45,10 @@ CHECKS["C16"] = dict(cat="proof", design="§3 C16",
 CHECKS["C15"] = dict(cat="proof", design="§3 C15",
     text="One-step obligations from an arbitrary previous state (inductive invariants): rate controller |i1|<=i_max, 0<alpha<1, e1/de1/M laws; velocity input: yaw set-point in [-pi,pi], |pw_sp1-pw|<=2, reset puts it on the vehicle, stick maps; acro stick maps and bounds; position controller: feedback term <= 0.3 m g (thrust vector observed by call-through recording of norm_2 arguments), height integrator within its limit, thrust = |T|. Attitude laws: the shipped functions are congruent (QF_UF) to kp o log(X^-1 X_r) resp. J_l diag(kp) log; X^-1 X_r has exactly the parameters of the relative rotation (either quaternion sign); its log is phi*n for phi in (0,pi), so omega = kp o (phi n) / J_l(phi n) diag(kp) phi n; exactly zero for q_r = +-q. se23_error: congruent to log(X^-1 X_r); relative element exact (log: C03).",
     note="trusted: as C03 + IEEE commutativity of +,* for the QF_UF congruence. Real arithmetic; pi is the code's double. input_auto_level's angle map is only covered through C14 (unit quaternion).")
+CHECKS["C19"] = dict(cat="proof", design="§3 C19",
+    text="Expression trees are enumerated over the accepted grammar (every constructor on symbols and on every leaf class, all depth-2 compositions, matrices, cse path, two-entry function dictionary; reverse direction: every accepted opcode incl. fmod, remainder, floor/ceil, sign, comparisons, logic, fmin/fmax, if_else, hyperbolics). For each program the converter output (CasADi instruction list resp. SymPy tree) and the source are both translated to SMT (ite encoding, transcendental heads uninterpreted) and z3 decides source != converted on the common domain; unsat for every program; constant programs are decided by evaluation; symbol-table consistency checked.",
+    note="trusted: the SymPy->SMT reference translator (standard meaning of each node), ite encoder, z3. Constants within 2 ulp of p/q read as p/q on both sides; programs in which SymPy leaves an irrational numeric factor next to symbols are outside the bounded grammar (CasADi folds them in double precision); remainder on |a|<=8; an exception from the converter counts as rejection (allowed).",
+    tech="solver-based checking: grammar-enumerated programs, converter output and source both encoded in SMT (z3, UF + LRA/NRA + ints), sat models replayed numerically on both sides")
 CHECKS["C04"] = dict(cat="proof", design="§3 C04",
     text="Ad/ad/bracket of every group/algebra executed symbolically; (Ad_X y)^ = M(X) y^ M(X^-1), Ad homomorphism and inverse, ad = bracket = matrix commutator, antisymmetry, Jacobi, block-diagonal direct-sum ad, and Ad_exp(x) = expm(ad_x) in closed form (Rodrigues / Barfoot quartic) are proved per entry; wrong shapes and crashes of offered operations are violations.",
     note="trusted: as C01 plus the closed forms of expm(ad) and the theorem Ad_{exp A} = expm(ad_A) (used for SE_2(3)/Euler where exp ends in from_Matrix). Operations raising NotImplementedError are out of scope as the property states.")
